@@ -382,6 +382,7 @@ def run_property(modname: str, tier: str, seed: int, only: Optional[str] = None,
             traceback.print_exc()
             print(f"HARNESS-ERROR property={pid} oracle self-test failed")
             return 2
+    reg_results = run_regressions(mod)
     tasks = []
     for sc in mod.SUBCHECKS:
         if only and sc.name != only:
@@ -396,7 +397,39 @@ def run_property(modname: str, tier: str, seed: int, only: Optional[str] = None,
         mpctx = mp.get_context("spawn")
         with mpctx.Pool(procs, maxtasksperchild=1) as pool:
             results = pool.map(_worker, tasks, chunksize=1)
-    return finish(mod, tier, seed, results, time.time() - t0)
+    return finish(mod, tier, seed, reg_results + results, time.time() - t0)
+
+
+def run_regressions(mod) -> list:
+    """Seconds-long replay tier: every committed regressions/<pid>-*.json case is re-evaluated first."""
+    import glob
+
+    pid = mod.PROPERTY
+    out = []
+    for path in sorted(glob.glob(os.path.join(VERIF_DIR, "regressions", f"{pid}-*.json"))):
+        with open(path) as f:
+            rec = json.load(f)
+        sc = next((s for s in mod.SUBCHECKS if s.name == rec["subcheck"]), None)
+        if sc is None or sc.body is None:
+            out.append({"sub": rec.get("subcheck", "?"), "shard": 0, "error": f"regression file {path}: unknown subcheck"})
+            continue
+        ctx = Ctx(pid, sc.name, "quick", 0)
+        vio = []
+        try:
+            sc.body(ctx, decode(rec["case"]))
+        except Violation as v:
+            vio.append({"bucket": v.bucket, "sub": sc.name, "case": encode(v.case), "message": "[regression " + os.path.basename(path) + "] " + v.message})
+        except Exception:
+            out.append({"sub": sc.name, "shard": 0, "error": f"regression file {path}:\n" + traceback.format_exc()})
+            continue
+        r = ctx.result()
+        r["shard"] = -1
+        r["samples"] = []
+        r["counters"] = {"regression-corpus-cases": 1}
+        r["violations"] = vio
+        r["wall_s"] = 0.0
+        out.append(r)
+    return out
 
 
 def finish(mod, tier: str, seed: int, results: list, wall: float) -> int:
@@ -431,7 +464,9 @@ def finish(mod, tier: str, seed: int, results: list, wall: float) -> int:
         ps["wall_s"] = round(ps["wall_s"] + r["wall_s"], 2)
         violations.extend(r["violations"])
     # one replay file per distinct bucket
-    os.makedirs(os.path.join(VERIF_DIR, "replays"), exist_ok=True)
+    rdir = os.environ.get("VERIF_REPLAY_DIR") or os.path.join(VERIF_DIR, "replays")
+    edir = os.environ.get("VERIF_EVIDENCE_DIR") or os.path.join(VERIF_DIR, "evidence")
+    os.makedirs(rdir, exist_ok=True)
     seen = set()
     vio_out = []
     for v in violations:
@@ -440,7 +475,8 @@ def finish(mod, tier: str, seed: int, results: list, wall: float) -> int:
         seen.add(v["bucket"])
         h = hashlib.sha1(json.dumps(v["case"], sort_keys=True).encode()).hexdigest()[:10]
         safe = "".join(c if c.isalnum() or c in "-_." else "_" for c in v["bucket"])[:80]
-        path = os.path.join("replays", f"{pid}-{safe}-{h}.json")
+        path = os.path.join(rdir, f"{pid}-{safe}-{h}.json")
+        path = os.path.relpath(path, VERIF_DIR) if path.startswith(VERIF_DIR + os.sep) else path
         with open(os.path.join(VERIF_DIR, path), "w") as f:
             json.dump({"property": pid, "subcheck": v["sub"], "bucket": v["bucket"], "message": v["message"], "case": v["case"]}, f, indent=1)
         vio_out.append((v, path))
@@ -471,8 +507,8 @@ def finish(mod, tier: str, seed: int, results: list, wall: float) -> int:
     }
     if hasattr(mod, "EXPLANATION"):
         ev["coverage"]["explanation"] = mod.EXPLANATION
-    os.makedirs(os.path.join(VERIF_DIR, "evidence"), exist_ok=True)
-    with open(os.path.join(VERIF_DIR, "evidence", f"{pid}.json"), "w") as f:
+    os.makedirs(edir, exist_ok=True)
+    with open(os.path.join(edir, f"{pid}.json"), "w") as f:
         json.dump(ev, f, indent=1, sort_keys=False)
     for k in known:
         seen_n = excluded.get(k["bucket"], {}).get("count", 0)
